@@ -243,7 +243,7 @@ def _deviate(arg: tuple) -> dict:
     """One position of a deviation-bounded long history: the script call at
     position i is replaced by every call of the alphabet, the rest of the
     script is run behind it."""
-    mod, cfg, script, i, job = arg
+    mod, cfg, script, i, job, part, nparts = arg
     sp = importlib.import_module(mod).SPACE
     res = Result()
     seen: set = set()
@@ -251,14 +251,14 @@ def _deviate(arg: tuple) -> dict:
     pre_obj = sp.replay(cfg, h)
     pre = sp.observe(pre_obj)
     cache: dict = {}
-    states = 0
+    nontriv: set = set()
 
     def note(F: list, hist: list, call: list, at: str) -> None:
         for prop, sig, what in F:
             res.merge_finding(prop, sig, what, {
                 'config': cfg, 'history': hist, 'call': call, 'at': at})
 
-    for call in sp.alphabet(pre, cfg):
+    for call in sp.alphabet(pre, cfg)[part::nparts]:
         if call == script[i] if i < len(script) else False:
             continue
         obj, out = sp.apply(sp.replay(cfg, h), call)
@@ -272,7 +272,6 @@ def _deviate(arg: tuple) -> dict:
         if key in seen:
             continue
         seen.add(key)
-        states += 1
         hist = h + [call]
         # the deviated state itself
         probe = sp.replay(cfg, hist)
@@ -281,7 +280,7 @@ def _deviate(arg: tuple) -> dict:
         if broken:
             continue
         if sp.nontrivial(post):
-            res.nontrivial += 1
+            nontriv.add(key)
         # the rest of the script behind the deviation
         cur, cur_obs = obj, post
         alive = True
@@ -300,16 +299,16 @@ def _deviate(arg: tuple) -> dict:
             key2 = sp.key(cur, cur_obs)
             if key2 not in seen:
                 seen.add(key2)
-                states += 1
+                if sp.nontrivial(cur_obs):
+                    nontriv.add(key2)
                 F4, _ = sp.judge_state(cur, cur_obs, hist[-1][0])
                 note(F4, hist[:-1], hist[-1], 'state')
     return {'i': i, 'job': job, 'transitions': res.transitions, 'methods': res.methods,
-            'findings': res.findings, 'states': states,
-            'nontrivial': res.nontrivial}
+            'findings': res.findings, 'keys': seen, 'nontrivial': nontriv}
 
 
 def deviations(space_mod: str, jobs: list[tuple], procs: int = 16,
-               deadline: float | None = None) -> list[Result]:
+               deadline: float | None = None, split: int = 1) -> list[Result]:
     """jobs = [(cfg, script), ...].  For each job, all histories that differ
     from the script in exactly one position (every position, every other call
     of the alphabet in the state reached there), each executed to its end on
@@ -318,31 +317,38 @@ def deviations(space_mod: str, jobs: list[tuple], procs: int = 16,
     items = []
     for ji, (cfg, script) in enumerate(jobs):
         for i in range(len(script) + 1):
-            items.append((space_mod, cfg, script, i, ji))
+            # the alphabet of one position is dealt out over `split` work items
+            for part in range(split):
+                items.append((space_mod, cfg, script, i, ji, part, split))
     # late positions are the expensive ones: start them first
     items.sort(key=lambda it: -it[3])
     gc.collect()
     gc.freeze()
     done: Counter = Counter()
+    keys: list[set] = [set() for _ in jobs]
+    ntkeys: list[set] = [set() for _ in jobs]
     for r in pmap(_deviate, items, procs=procs, deadline=deadline,
                   initfn=gc.freeze):
         R = RS[r['job']]
         done[r['job']] += 1
         R.transitions += r['transitions']
-        R.states += r['states']
-        R.nontrivial += r['nontrivial']
+        keys[r['job']] |= r['keys']
+        ntkeys[r['job']] |= r['nontrivial']
         R.methods.update(r['methods'])
         for (prop, sig), rec in r['findings'].items():
             R.merge_finding(prop, sig, rec['what'], rec['replay'], rec['count'])
     gc.unfreeze()
     for ji, (cfg, script) in enumerate(jobs):
         R = RS[ji]
+        R.states = len(keys[ji])
+        R.nontrivial = len(ntkeys[ji])
         R.max_depth = len(script)
         R.samples.append({'script': script[:3] + ['...'] + script[-2:],
                           'deviation': 'every alphabet call at every position'})
-        if done[ji] < len(script) + 1:
-            R.capped = (f'time cap: {done[ji]} of {len(script) + 1} deviation '
-                        f'positions of the {len(script)}-call script completed')
+        if done[ji] < (len(script) + 1) * split:
+            R.capped = (f'time cap: {done[ji]} of {(len(script) + 1) * split} '
+                        f'work items ({len(script) + 1} deviation positions of '
+                        f'the {len(script)}-call script) completed')
     return RS
 
 
